@@ -4,3 +4,4 @@ set -e
 cd /verif/harness
 export CARGO_NET_OFFLINE=true
 cargo build --release --offline -p vcheck
+cargo build --release --offline -p fs_nowat
